@@ -104,6 +104,10 @@ func (fr *frame) analyzeLoop(li *loopInfo) {
 						fr.allocKeys(pt.Elem(), li.heapWrites)
 					}
 				}
+			case *ssa.Next:
+				if in.IsString {
+					li.heapWrites[fr.iterKey(in.Iter)] = true
+				}
 			case *ssa.MapUpdate:
 			case ssa.CallInstruction:
 				c := in.Common()
@@ -528,6 +532,22 @@ func (fr *frame) resolveLocal(name string, pos token.Pos, st *State) *SVal {
 		}
 	}
 	if len(cands) == 0 {
+		if name == "rangepos" {
+			// hidden position of the (unique) string range iterator of this function
+			var rng ssa.Value
+			n := 0
+			for _, b := range fr.fn.Blocks {
+				for _, in := range b.Instrs {
+					if r, ok := in.(*ssa.Range); ok && isString(r.X.Type()) {
+						rng = r
+						n++
+					}
+				}
+			}
+			if n == 1 {
+				return &SVal{T: vc.heapGet(st, fr.iterKey(rng)), Go: types.Typ[types.Int]}
+			}
+		}
 		return nil
 	}
 	pick := cands[0]
